@@ -1424,3 +1424,57 @@ func ruleValidatedTokensAreDecodedTokens(c *report.Ctx) {
 		}
 	}
 }
+
+// ruleRelevantIndex (C01/C09): loops over a record's relevant inputs/outputs address the transaction through the element's Index.
+func ruleRelevantIndex(c *report.Ctx, floor int) {
+	p := c.P
+	c.Rule("relevant-index", "a loop over TxRecord.RelevantTxIn / RelevantTxOut addresses MsgTx.TxIn / TxOut through the element's own Index (the relevant list is a sparse subset: position in the list is not position in the transaction)", floor)
+	for _, f := range p.ModFuncs {
+		pk := an.FuncPkg(f)
+		if pk == nil || pk.Path() != pkgTxmgr {
+			continue
+		}
+		rel := map[string]bool{}
+		an.Instrs(f, func(in ssa.Instruction) {
+			// any use of the field (range, len, index) makes this a walk over the relevant list
+			if fa, ok := in.(*ssa.FieldAddr); ok {
+				if st := derefStructT(fa.X.Type()); st != nil {
+					switch st.Field(fa.Field).Name() {
+					case "RelevantTxIn":
+						rel["TxIn"] = true
+					case "RelevantTxOut":
+						rel["TxOut"] = true
+					}
+				}
+			}
+		})
+		if len(rel) == 0 {
+			continue
+		}
+		n := 0
+		an.Instrs(f, func(in ssa.Instruction) {
+			ia, ok := in.(*ssa.IndexAddr)
+			if !ok {
+				return
+			}
+			d := p.Desc(ia.X)
+			var which string
+			switch {
+			case strings.HasSuffix(d, "TxRecord.MsgTx.TxIn") && rel["TxIn"]:
+				which = "TxIn"
+			case strings.HasSuffix(d, "TxRecord.MsgTx.TxOut") && rel["TxOut"]:
+				which = "TxOut"
+			default:
+				return
+			}
+			n++
+			key := siteKey(f, "MsgTx."+which+"[rel.Index]", n)
+			id := p.Desc(stripConv(ia.Index))
+			if strings.HasSuffix(id, "RelevantMeta.Index") {
+				c.OK(key, "indexed by the relevant element's Index", posOf(c, in))
+			} else {
+				c.Fail(key, sk(f)+" walks the record's relevant "+which+" list but addresses MsgTx."+which+" by "+id+": when a foreign input/output precedes a wallet one, the wrong outpoint is recorded (a foreign coin is flagged, the wallet's own pending-spent coin stays selectable and a confirmed conflict no longer purges the pending transaction)", posOf(c, in))
+			}
+		})
+	}
+}
